@@ -16,6 +16,7 @@ package http2
 // Every top-level identifier in this file starts with vsrv.
 
 import (
+	"encoding/binary"
 	"fmt"
 	"hash/fnv"
 	"io"
@@ -26,6 +27,7 @@ import (
 	"os"
 	"runtime/debug"
 	"sort"
+	"strconv"
 	"strings"
 	"sync"
 	"testing"
@@ -1059,6 +1061,20 @@ func (s *vsrvSession) onServerFrame(f h2ref.Frame) {
 		if f.Has(h2ref.FlagEndStream) {
 			st.srvEnd = true
 		}
+	case h2ref.TypePushPromise:
+		// the promised stream is a response stream like any other: its DATA is subject to the
+		// client's windows, and the client may extend them
+		pl := f.Payload
+		if f.Has(h2ref.FlagPadded) && len(pl) > 0 {
+			pl = pl[1:]
+		}
+		if len(pl) >= 4 {
+			pid := binary.BigEndian.Uint32(pl) & 0x7fffffff
+			st := s.st(pid)
+			st.opened = true
+			s.ev["server_push_promises"]++
+			s.tr("S> PUSH_PROMISE s=%d promised=%d", f.StreamID, pid)
+		}
 	default:
 		f.Payload = nil
 		s.tr("S> %v", f)
@@ -1212,6 +1228,13 @@ func (s *vsrvSession) hEvent(id uint32, what string, n int, err error) {
 		if what == "park" {
 			st.hParked = true
 		}
+	case "push":
+		if err != nil {
+			s.ev["handler_push_errors"]++
+			s.tr("H  push by s=%d failed: %v", id, err)
+		} else {
+			s.ev["handler_pushes"]++
+		}
 	case "done":
 		if st.hInCall == "write" && err != nil {
 			st.hWriteErr = true
@@ -1279,6 +1302,11 @@ func (s *vsrvSession) serveHTTP(w http.ResponseWriter, r *http.Request) {
 			s.hEvent(id, "done", 0, nil)
 		case 'h':
 			w.WriteHeader(op.N)
+		case 'U': // server push of /pushed/<N>
+			if pu, ok := w.(http.Pusher); ok {
+				err := pu.Push("/pushed/"+strconv.Itoa(op.N), nil)
+				s.hEvent(id, "push", 0, err)
+			}
 		}
 	}
 }
